@@ -703,11 +703,11 @@ fn parse_json_filter(input: &[u8], output: &mut [u8]) -> Result<(usize, usize), 
     let mut start_ids: Option<usize> = None;
     let mut start_authors: Option<usize> = None;
     let mut start_kinds: Option<usize> = None;
-    // Allowing up to 32 tag filter fields (plenty!)
+    // One slot per possible tag letter (A-Z, a-z); duplicates are rejected below
     // (we are not differentiating letters yet, just collecting offsets)
     // (we make the array to avoid allocation)
     let mut num_tag_fields = 0;
-    let mut start_tags: [usize; 32] = [usize::MAX; 32];
+    let mut start_tags: [usize; 52] = [usize::MAX; 52];
 
     eat_whitespace(input, &mut inpos);
     verify_char(input, b'{', &mut inpos)?;
@@ -828,20 +828,22 @@ fn parse_json_filter(input: &[u8], output: &mut [u8]) -> Result<(usize, usize), 
         {
             inpos += 1; // pass the hash
 
-            // Mark this position (on the letter itself)
-            start_tags[num_tag_fields] = inpos;
-            num_tag_fields += 1;
-
-            let letter = input[inpos];
-            inpos += 2; // pass the letter and quote
-
             // Remember we found this tag in the `found_tags` bitfield
-            if let Some(bit) = letter_to_tag_bit(letter) {
+            let letter = input[inpos];
+            if let Some(index) = letter_to_tag_bit(letter) {
+                let bit: u64 = 1 << index;
                 if found_tags & bit == bit {
                     return Err(InnerError::JsonBadFilter("Duplicate tag", inpos).into());
                 }
                 found_tags |= bit;
             }
+
+            // Mark this position (on the letter itself)
+            // (cannot overflow: there are 52 letters and duplicates were just rejected)
+            start_tags[num_tag_fields] = inpos;
+            num_tag_fields += 1;
+
+            inpos += 2; // pass the letter and quote
 
             // Burn the rest
             eat_colon_with_whitespace(input, &mut inpos)?;
